@@ -1107,4 +1107,124 @@ example : specTrace pEx 0
     simp only [List.mem_cons, Op.advance.injEq, reduceCtorEq, false_or, List.mem_nil_iff, or_false] at hd
     omega)
 
+/-! ## Part 6 (round 7): the `wrap` and `proxy` judges accept the model -/
+
+theorem bne_ok_eq (o : Outcome) : (o != Outcome.ok) = decide (o ≠ Outcome.ok) := by cases o <;> rfl
+
+/-- one call through the wrapper on the model, spelled out (from `wrap_records_once`) -/
+theorem wrapCall_eq (p : Policy) (cb : CB) (now : Int) (o : Outcome) :
+    ((acquire p cb now).2.permitted = false →
+      wrapCall p cb now o = ((acquire p cb now).1, [Ev.acquire], WrapRet.shortCircuited)) ∧
+    ((acquire p cb now).2.permitted = true →
+      wrapCall p cb now o =
+        (record p (acquire p cb now).1 (acquire p cb now).2.id (decide (o ≠ Outcome.ok)) 0 now,
+          [Ev.acquire, Ev.handler, Ev.record (decide (o ≠ Outcome.ok))], (wrap true o).2)) := by
+  refine ⟨fun h => ?_, fun h => ?_⟩
+  · have hw := (wrap_records_once false o).2.1 rfl
+    simp only [wrapCall, h, hw, List.foldl_cons, List.foldl_nil]
+  · have hw := ((wrap_records_once true o).2.2 rfl).1
+    simp only [wrapCall, h, hw, List.foldl_cons, List.foldl_nil]
+
+/-- **one wrapped call keeps the model and the reference automaton related**, on every reachable state: they
+agree on the admission, and the model's state after the call (acquire + the one record of an admitted call) is
+`Sim`-related to the automaton's and again reachable -/
+theorem wrapCall_sim {p : Policy} (hsz : 0 < p.size) {cb : CB} {now : Int} {ids : List Nat} {r : Ref}
+    (hr : Reach p cb now ids) (s : Sim p cb r now) (o : Outcome) :
+    (∃ ids', Reach p (wrapCall p cb now o).1 now ids') ∧
+    Sim p (wrapCall p cb now o).1 (Ref.wrapCall p r now o).1 now ∧
+    (acquire p cb now).2.permitted = (Ref.wrapCall p r now o).2 := by
+  have inv := reach_inv hr
+  obtain ⟨s', hperm⟩ := sim_acquire (now := now) s inv.live
+  have hr' := Reach.step hr (Step.acquire cb now ids)
+  have hra : (Ref.wrapCall p r now o).2 = (Ref.acquire p r now).2 := rfl
+  cases hp : (acquire p cb now).2.permitted with
+  | false =>
+    rw [((wrapCall_eq p cb now o).1 hp)]
+    have h2 : (Ref.acquire p r now).2 = false := by rw [← hperm, hp]
+    refine ⟨⟨_, hr'⟩, ?_, by rw [hra, h2]⟩
+    simpa [Ref.wrapCall, h2] using s'
+  | true =>
+    rw [((wrapCall_eq p cb now o).2 hp)]
+    have h2 : (Ref.acquire p r now).2 = true := by rw [← hperm, hp]
+    simp only [hp, if_true] at hr'
+    have hid : (acquire p cb now).2.id ∈ (acquire p cb now).2.id :: ids := List.mem_cons_self ..
+    have hrec := Reach.step hr' (Step.record _ now _ (acquire p cb now).2.id (decide (o ≠ Outcome.ok)) 0 hid)
+    have hsim := sim_record s' hsz (acquire p cb now).2.id (decide (o ≠ Outcome.ok)) 0
+      (current_id_live (reach_inv hr') hid)
+    have hep : (Ref.acquire p r now).1.epoch = (acquire p cb now).2.id := by
+      rw [s'.epoch, (acquire_id_spec p cb now).2]
+    refine ⟨⟨_, hrec⟩, ?_, by rw [hra, h2]⟩
+    simpa [Ref.wrapCall, h2, hep, bne_ok_eq] using hsim
+
+/-- **the `wrap` judge's specification accepts the model**: for every policy with a non-empty window and every
+sequence of wrapped calls (handler returns nil / an error / panics), what the model predicts per call — returned
+class, whether the handler ran, `State()` afterwards — is what the reference automaton prescribes
+(`spec := got = wantR`, `agree := got = want` in the judge: the two sides are equal). -/
+theorem wrap_spec_accepts_model (p : Policy) (hsz : 0 < p.size) : ∀ (cs : List Int) (cb : CB) (r : Ref)
+    (ids : List Nat), Reach p cb 0 ids → Sim p cb r 0 → wrapRunModel p cb cs = wrapRunRef p r cs
+  | [], _, _, _, _, _ => rfl
+  | c :: rest, cb, r, ids, hr, s => by
+    obtain ⟨⟨ids', hr'⟩, s', hperm⟩ := wrapCall_sim hsz hr s (wrapOutcome c)
+    simp only [wrapRunModel, wrapRunRef]
+    rw [wrap_spec_accepts_model p hsz rest _ _ ids' hr' s']
+    congr 1
+    have hst : (wrapCall p cb 0 (wrapOutcome c)).1.st.toNat = (Ref.wrapCall p r 0 (wrapOutcome c)).1.st.toNat := by
+      rw [s'.st]
+    cases hp : (acquire p cb 0).2.permitted with
+    | false =>
+      have h2 : (Ref.wrapCall p r 0 (wrapOutcome c)).2 = false := by rw [← hperm, hp]
+      rw [← hst, h2, ((wrapCall_eq p cb 0 (wrapOutcome c)).1 hp)]
+      rfl
+    | true =>
+      have h2 : (Ref.wrapCall p r 0 (wrapOutcome c)).2 = true := by rw [← hperm, hp]
+      rw [← hst, h2, ((wrapCall_eq p cb 0 (wrapOutcome c)).2 hp)]
+      cases wrapOutcome c <;> rfl
+
+/-- … from `New(policy)` at the harness' instant 0 -/
+theorem wrap_judge_accepts_model (p : Policy) (hsz : 0 < p.size) (cs : List Int) :
+    wrapRunModel p (new p 0) cs = wrapRunRef p (Ref.new p 0) cs :=
+  wrap_spec_accepts_model p hsz cs _ _ [] (Reach.init 0 hsz) (sim_new p hsz 0)
+
+/-- one entry of the `proxy` judge's model: the request is reported `shortCircuited` exactly when the breaker
+refuses it, and then with status 503 and without a backend call -/
+theorem proxy_entry (p : Policy) (cb : CB) (c : Int) (rest : List Int) :
+    ∃ e, proxyRun p cb (c :: rest) = e :: proxyRun p (wrapCall p cb 0 (if c == 1 || c == 2 then .err else .ok)).1 rest ∧
+      (e.1 = "shortCircuited" ↔ (acquire p cb 0).2.permitted = false) ∧
+      (e.1 = "shortCircuited" → e.2.1 = 503 ∧ e.2.2 = 0) ∧
+      ((acquire p cb 0).2.permitted = true → e.2.2 = 1) := by
+  refine ⟨_, rfl, ?_⟩
+  cases hp : (acquire p cb 0).2.permitted with
+  | false =>
+    simp only [((wrapCall_eq p cb 0 _).1 hp)]
+    simp [poolOutcome]
+  | true =>
+    simp only [((wrapCall_eq p cb 0 _).2 hp)]
+    by_cases h2 : c = 2
+    · subst h2; simp [wrap, poolOutcome]
+    · by_cases h1 : c = 1
+      · subst h1; simp [wrap, poolOutcome]
+      · simp [h1, h2, wrap, poolOutcome]
+
+/-- **the `proxy` judge's property accepts the model**: on every breaker state and every request sequence the
+model's own prediction satisfies `proxyShortOK` (a short-circuited request is a 503 without a backend call) -/
+theorem proxy_spec_accepts_model (p : Policy) : ∀ (cs : List Int) (cb : CB), proxyShortOK (proxyRun p cb cs) = true
+  | [], _ => rfl
+  | c :: rest, cb => by
+    obtain ⟨e, he, _, h503, _⟩ := proxy_entry p cb c rest
+    have ih := proxy_spec_accepts_model p rest (wrapCall p cb 0 (if c == 1 || c == 2 then .err else .ok)).1
+    rw [he]
+    unfold proxyShortOK at ih ⊢
+    rw [List.all_cons, ih, Bool.and_true]
+    by_cases hs : e.1 = "shortCircuited"
+    · obtain ⟨h1, h2⟩ := h503 hs
+      simp [h1, h2]
+    · simp [hs]
+
+/-- the property is not vacuous: a 503 `shortCircuited` entry with a backend call is refused; and with `pEx`
+(threshold reached after two failures) the third request is short-circuited -/
+example : proxyShortOK [("shortCircuited", 503, 1)] = false ∧
+    (proxyRun pEx (new pEx 0) [1, 1, 0, 0, 0]).map (·.1) =
+      ["serverError", "serverError", "shortCircuited", "shortCircuited", "shortCircuited"] := by
+  refine ⟨by decide, by decide⟩
+
 end EgVerif.C08
